@@ -378,6 +378,7 @@ def run(ctx):
     w5(ctx)
     w6(ctx)
     w7(ctx)
+    w8(ctx)
 
 
 def w6(ctx):
@@ -416,6 +417,23 @@ def w7(ctx):
             parts = o.key.split("|")
             ctx.ob("W7", parts[1], parts[2], o.where, o.ok, o.detail)
     ctx.floor("W7", "handshake awaits inspected in TCP accept loops (C08 L2)", 1, n)
+
+
+def w8(ctx):
+    """W8: no chunk is held by a future that `select!` may drop (cancellation safety of relay loops)"""
+    from .common import select_arms_carrying_data
+    rows, n = select_arms_carrying_data(ctx.prog)
+    ctx.floor("W8", "select! loops inspected", 3, n)
+    seen = set()
+    for (b, t, arm, take, give, where) in rows:
+        if (b.defp, arm) in seen:
+            continue
+        seen.add((b.defp, arm))
+        ctx.ob("W8", b.defp, f"select-arm-holds-no-data-across-an-await:{arm.split('::')[-1]}", where, False,
+               f"a branch of a `select!` that is re-created on every loop iteration ({arm}) takes an item with `{take}` and then awaits `{give}`: when another branch completes "
+               "while this one waits for the sink (back-pressure), `select!` drops it together with the item it had already taken out of the source - bytes disappear from the "
+               "middle of the stream and the receiver still sees a normal end")
+    ctx.ob("W8", "workspace", "scan", "-", True, f"{n} select! loops scanned for branches that carry data across an await", nontrivial=False, ordinal=False)
 
 
 def w5(ctx):
